@@ -344,6 +344,15 @@ func runScenario(steps []string) outcome {
 			c.cancel()
 		}
 		_ = p.l.Close()
+		// what an application does when its session has ended: close its streams (this also
+		// releases readers of a stream the peer orphaned, e.g. by re-opening its sid; ibb's
+		// Read does not honour read deadlines — noted for C15 in DESIGN-notes/C09.md)
+		sr.mu.Lock()
+		for _, cn := range sr.conns {
+			cn := cn
+			go func() { _ = cn.Close() }()
+		}
+		sr.mu.Unlock()
 		for name, c := range sr.calls {
 			select {
 			case o := <-c.done:
@@ -351,7 +360,7 @@ func runScenario(steps []string) outcome {
 					return o
 				}
 			case <-time.After(watchdog):
-				return outcome{stalled: true, where: "local call " + name + " did not return after its context was cancelled and the input ended"}
+				return outcome{stalled: true, where: "local call " + name + " did not return after its context was cancelled, its streams closed and the input ended"}
 			}
 		}
 		return outcome{}
